@@ -100,6 +100,8 @@ def grammar_cases(tier, seed, work, stats, fams, pools):
             prods = sorted(tlaparse.to_json(st["prods"]))
             vp, tp = pools[i % len(pools)]
             cases.append(dict(prods=prods, vpool=vp, tpool=tp, family="CFGGen", declare=(i % 7 == 3)))
+            if i % 9 == 4:      # productions handed over as a list with repetitions / as a one-shot iterable
+                cases.append(dict(prods=prods, vpool=vp, tpool=tp, family="CFGGen-containers", container=("dup", "gen")[i % 2]))
     for prods in DIRECTED:
         for vp, tp in pools:
             cases.append(dict(prods=prods, vpool=vp, tpool=tp, family="directed"))
@@ -126,7 +128,7 @@ def generate(tier, seed, work, stats):
 
 def replay(case):
     from harness import cfgh, guard
-    g, start, tagged = cfgh.make(case["prods"], case["vpool"], case["tpool"], declare=case.get("declare", False))
+    g, start, tagged = cfgh.make(case["prods"], case["vpool"], case["tpool"], declare=case.get("declare", False), container=case.get("container"))
     G = cfgh.project(g)
     evs = [{"op": "new", "G": G, "start": start, "prods": tagged}]
     Lw = case["L"]
